@@ -363,6 +363,13 @@ def build_state(spec):
         return ppt_state(spec)
     if fam == "bound":
         return bound_state(spec)
+    if fam == "hs":
+        # Hilbert-Schmidt random full-rank state: no structure at all (about half of them NPT on 2x3, a few per cent with
+        # two negative partial-transpose eigenvalues - the region seeded change C15-w3 needed)
+        from tqv import gen as _gen
+
+        n = spec["d"][0] * spec["d"][1]
+        return herm(_gen.rand_density(spec["seed"], n, n, real=not spec["cplx"]))
     raise ValueError(fam)
 
 
